@@ -20,7 +20,7 @@ from pjrpc.common.typedefs import Func
 from pjrpc.server import Method, utils
 from pjrpc.server.specs.schemas import build_request_schema, build_response_schema
 
-from . import BaseUI, Specification, extractors
+from . import BaseUI, Specification, extractors, get_excluded_params
 
 HTTP_DEFAULT_STATUS = 200
 JSONRPC_MEDIATYPE = 'application/json'
@@ -827,7 +827,7 @@ class OpenAPI(Specification):
                     method.name,
                     method.method,
                     ref_template=f'#/components/schemas/{component_name_prefix}{{model}}',
-                    exclude=[method.context] if method.context else [],
+                    exclude=get_excluded_params(method),
                 ):
                     request_schema, components = result
                     if components:
